@@ -233,7 +233,10 @@ class DeckGen:
         mat = self.material()
         while mat[0] == 0:
             mat = self.material()
-        if base['mat'] == 0 or mode < 0.5:
+        if self.wild and base['mat'] != 0 and rng.random() < 0.3:
+            but['mat'], cls = 0, None       # a void copy
+            self.features.add('like-but-void')
+        elif base['mat'] == 0 or mode < 0.5:
             but['mat'], but['rho'], cls = mat[0], mat[1], mat[2]
             self.features.add('like-but-mat-rho')
         else:
@@ -326,7 +329,7 @@ class DeckGen:
                          if c.get('like') and 'mat' in c['but']})
         return {'title': 'C09 generated deck', 'cells': self.cells,
                 'surfaces': self.surfaces, 'transforms': self.transforms,
-                'materials': {m: MATERIAL_CARDS[m] for m in mats},
+                'materials': {m: MATERIAL_CARDS[m] for m in mats if m},
                 'data': [], 'palette': self.palette,
                 'features': sorted(self.features)}
 
